@@ -1375,11 +1375,19 @@ class Clip(Elemwise):
             return plain_column_projection(self, parent, dependents)
 
 
+def _to_pyarrow_string(df):
+    # to_pyarrow_string assigns the converted index to its argument when no
+    # column needs a conversion: work on a shallow copy of the input partition
+    if is_dataframe_like(df) or is_series_like(df):
+        df = df.copy(deep=False)
+    return to_pyarrow_string(df)
+
+
 class ArrowStringConversion(Elemwise):
     _projection_passthrough = True
     _filter_passthrough = True
     _parameters = ["frame"]
-    operation = staticmethod(to_pyarrow_string)
+    operation = staticmethod(_to_pyarrow_string)
 
 
 class Between(Elemwise):
